@@ -143,3 +143,57 @@ def strip_unwrap(o):
 def ret(prog, body, depth=3):
     """Inlined origin of the value a (single-expression) function returns."""
     return fl.inline(prog, fl.ret_origin(prog, body), depth)
+
+
+def closure_ret_shapes(ctx, key, depth=4):
+    """Shapes of the values a closure body may return."""
+    out = set()
+    for c in ctx.prog.by_key.get(key, []):
+        try:
+            for p in pa.Explorer(ctx.prog, c).paths():
+                if p.end == "return":
+                    out.add(p.ret_shape(depth))
+        except pa.PathExplosion:
+            out.add("?")
+    return out
+
+
+def residual_error_shapes(ctx, p):
+    """For a path that returns through `?` (shape Residual(..)): the set of shapes the returned error
+    may have after the From conversion the `?` applies, and a description of where it came from.
+    Shapes are like 'FrameError::Incomplete'; 'any:<type>' when the variant is not determined."""
+    prog = ctx.prog
+    r = p.ret
+    if r is None or r[0] != "errconv":
+        return set(), "not a residual"
+    inner = r[1]
+    fr = [e for e in p.calls("from_residual")]
+    src = dst = None
+    if fr and fr[-1][2].gargs:
+        parts = fl.split_gargs(fr[-1][2].gargs)
+        if len(parts) == 2:
+            d = fl.split_gargs(parts[0][parts[0].index("<") + 1:-1]) if "<" in parts[0] else []
+            s = fl.split_gargs(parts[1][parts[1].index("<") + 1:-1]) if "<" in parts[1] else []
+            dst = d[-1] if d else None
+            src = s[-1] if s else None
+    # error built by a map_err closure
+    if inner[0] == "call" and inner[1] in ("core::result::Result::map_err",) and len(inner[2]) > 1 and inner[2][1][0] == "closure":
+        shapes = closure_ret_shapes(ctx, inner[2][1][1])
+        if src == dst or src is None:
+            return shapes, "map_err closure"
+        conv = "<%s as core::convert::From<%s>>::from" % (fl.strip_generics(dst), src)
+        out = set()
+        for c in prog.by_key.get(conv, []):
+            for q in pa.Explorer(prog, c).paths():
+                if q.end == "return":
+                    out.add(q.ret_shape())
+        return out or {"any:%s" % dst}, "map_err closure then " + conv
+    if src is not None and dst is not None and src != dst:
+        conv = "<%s as core::convert::From<%s>>::from" % (fl.strip_generics(dst), src)
+        out = set()
+        for c in prog.by_key.get(conv, []):
+            for q in pa.Explorer(prog, c).paths():
+                if q.end == "return":
+                    out.add(q.ret_shape())
+        return out or {"any:%s" % dst}, conv
+    return {"any:%s" % (dst or "?")}, "error of %s passed through" % pa.short(inner[1] if inner[0] == "call" else "?")
